@@ -234,7 +234,7 @@ fn tweak_key_mostly_exact(rng: &mut Rng, keys: &[Vec<u8>]) -> Vec<u8> {
 
 fn gen_maint(rng: &mut Rng, profile: &str) -> Op {
     let w = rand_wm(rng);
-    let moves = profile == "moves";
+    let moves = profile == "moves" || profile == "weakmoves";
     match rng.below(if moves { 30 } else { 20 }) {
         0..=3 => Op::Rotate,
         4..=6 => Op::Flush(w),
@@ -539,7 +539,7 @@ pub fn generate(profile: &str, seed: u64, n_ops: usize, blob: bool) -> History {
                 // a write
                 let k = rng.pick(&st.keys).clone();
                 match profile {
-                    "weak" => {
+                    "weak" | "weakmoves" => {
                         // discipline: a key is inserted once, then weak-deleted, never
                         // overwritten or strongly deleted
                         let c = st.single.get(&k).copied().unwrap_or(0);
@@ -574,6 +574,18 @@ pub fn generate(profile: &str, seed: u64, n_ops: usize, blob: bool) -> History {
                             st.frozen.insert(k.clone());
                             ops.push(Op::WDel(k));
                             continue;
+                        }
+                        if profile != "filter" && rng.chance(1, 14) {
+                            // two concurrent writers, inserted in the opposite order of their seqnos
+                            let k2 = rng.pick(&st.keys).clone();
+                            if k2 != k && !st.frozen.contains(&k2) {
+                                let v1 = rand_value(&mut rng, &mut st.vn, true);
+                                let v2 = rand_value(&mut rng, &mut st.vn, true);
+                                *st.wcount.entry(k.clone()).or_insert(0) += 1;
+                                *st.wcount.entry(k2.clone()).or_insert(0) += 1;
+                                ops.push(Op::Put2(k, v1, k2, v2));
+                                continue;
+                            }
                         }
                         *st.wcount.entry(k.clone()).or_insert(0) += 1;
                         if rng.chance(3, 4) {
@@ -669,6 +681,40 @@ pub fn generate(profile: &str, seed: u64, n_ops: usize, blob: bool) -> History {
                         .collect();
                     ops.push(Op::Ingest(items));
                 }
+                "blob" if rng.chance(1, 8) => {
+                    // several keys flushed together (one shared blob file), split into one table
+                    // per key, some garbage, small newer tables next to them, then a partial merge:
+                    // tables left out of the merge still point into the fragmented blob file
+                    let mut ks: Vec<Vec<u8>> = st.keys.clone();
+                    ks.sort();
+                    ks.dedup();
+                    let n = rng.range(3, 5) as usize;
+                    let start = rng.below((ks.len().saturating_sub(n) + 1) as u64) as usize;
+                    let ks: Vec<Vec<u8>> = ks.into_iter().skip(start).take(n).collect();
+                    for k in &ks {
+                        let mut v = rand_value(&mut rng, &mut st.vn, true);
+                        v.extend(std::iter::repeat(b'#').take(rng.range(20, 90) as usize));
+                        ops.push(Op::Put(k.clone(), v));
+                    }
+                    ops.push(Op::FlushActive(Wm::Zero));
+                    ops.push(Op::Major { target: 1, w: Wm::Zero });
+                    if let Some(last) = ks.last() {
+                        ops.push(Op::DropRange(Bnd::Incl(last.clone()), Bnd::Incl(last.clone())));
+                    }
+                    for j in [0usize, ks.len() / 2] {
+                        if let Some(k) = ks.get(j) {
+                            let mut k2 = k.clone();
+                            k2.push(b'0' + j as u8);
+                            let v = rand_value(&mut rng, &mut st.vn, false);
+                            ops.push(Op::Put(k2, v));
+                            ops.push(Op::FlushActive(Wm::Zero));
+                        }
+                    }
+                    ops.push(Op::Leveled { l0: 2, target: *rng.pick(&[1u64 << 20, 4096]), w: Wm::Zero });
+                    for k in &ks {
+                        ops.push(Op::Get(k.clone(), None));
+                    }
+                }
                 "drop" | "blob" => {
                     if rng.chance(1, 6) {
                         // clear in different states of the tree: as it is; with the data sitting
@@ -733,7 +779,7 @@ pub fn generate(profile: &str, seed: u64, n_ops: usize, blob: bool) -> History {
                 // reopen: usually right after a flush, sometimes with unflushed data
                 if profile != "fifo" || rng.chance(1, 3) {
                     // (the weak-delete discipline must not be broken by losing unflushed writes)
-                    if profile == "weak" || rng.chance(3, 4) {
+                    if profile == "weak" || profile == "weakmoves" || rng.chance(3, 4) {
                         ops.push(Op::FlushActive(Wm::Zero));
                     }
                     ops.push(Op::Reopen);
